@@ -137,6 +137,7 @@ inline std::string cmd_history(Reader &rd, std::map<uint32_t, std::vector<uint8_
                 const gr_slot *pf = (fp >= 0 && size_t(fp) < hs.order.size()) ? hs.order[fp] : nullptr;
                 const gr_slot *pl = (lp >= 0 && size_t(lp) < hs.order.size()) ? hs.order[lp] : nullptr;
                 float w = gr_seg_justify(hs.seg, hs.order[start], f, width, gr_justFlags(fl), pf, pl);
+                seginv::query_all(face, f, hs.seg, hs.order, false);      // every query on the justified segment (per-slot justification records now exist)
                 std::string gids = "[";
                 for (size_t i = 0; i < hs.order.size(); ++i) { if (i) gids += ","; gids += std::to_string(gr_slot_gid(hs.order[i])); }
                 emit("{\"w\":" + jnum(w) + ",\"lines\":" + line_state(hs) + ",\"gids\":" + gids + "]}");
